@@ -1,12 +1,12 @@
 package btree
 
 import (
-	"github.com/emirpasic/gods/v2/maps"
-	"strings"
 	"encoding/json"
 	"github.com/emirpasic/gods/v2/containers"
+	"github.com/emirpasic/gods/v2/maps"
 	vl "github.com/emirpasic/gods/v2/zzvlib"
 	v "github.com/emirpasic/gods/v2/zzvsup"
+	"strings"
 )
 
 // VSum summarises an unexpanded B-tree subtree of order m with exactly `levels` levels.
@@ -346,13 +346,21 @@ func VInv(t *Tree[int, int]) {
 // floor of the least n+1 for which 4*(log2(m)+1)*(log_ceil(m/2)(n+1)+1) >= c, by order m (rounded down: never stricter
 // than the documented bound)
 var vBTMin = map[int][]int{
-	3: {1, 1, 1, 1, 1, 1, 1, 1, 1, 1, 1, 1, 1, 1, 1, 1, 1, 1, 1, 1, 1, 2, 2, 2, 2, 2, 2, 3, 3, 3, 3, 3, 4, 4, 4, 5, 5, 5, 6, 6, 7, 7, 8, 8, 9, 10, 10, 11, 12, 13, 14, 15, 16, 17, 18, 19, 21, 22, 24, 26, 27, 29, 31, 34, 36, 39, 41, 44, 47, 51, 54, 58, 62, 66, 71, 76, 81, 87, 93, 99, 106},
-	4: {1, 1, 1, 1, 1, 1, 1, 1, 1, 1, 1, 1, 1, 1, 1, 1, 1, 1, 1, 1, 1, 1, 1, 1, 1, 2, 2, 2, 2, 2, 2, 2, 3, 3, 3, 3, 3, 4, 4, 4, 5, 5, 5, 5, 6, 6, 7, 7, 7, 8, 8, 9, 10, 10, 11, 11, 12, 13, 14, 15, 15, 16, 17, 19, 20, 21, 22, 23, 25, 26, 28, 30, 31, 33, 35, 38, 40, 42, 45, 47, 50},
-	5: {1, 1, 1, 1, 1, 1, 1, 1, 1, 1, 1, 1, 1, 1, 1, 1, 1, 1, 1, 1, 1, 1, 2, 2, 2, 2, 2, 3, 3, 3, 3, 4, 4, 5, 5, 6, 6, 7, 7, 8, 9, 9, 10, 11, 12, 13, 14, 16, 17, 19, 20, 22, 24, 26, 28, 31, 34, 37, 40, 43, 47, 51, 56, 60, 66, 71, 78, 84, 92, 100, 108, 118, 128, 139, 151, 164, 178, 193, 210, 228, 248},
-	6: {1, 1, 1, 1, 1, 1, 1, 1, 1, 1, 1, 1, 1, 1, 1, 1, 1, 1, 1, 1, 1, 1, 1, 1, 2, 2, 2, 2, 2, 3, 3, 3, 3, 4, 4, 4, 5, 5, 6, 6, 7, 7, 8, 8, 9, 10, 11, 12, 13, 14, 15, 16, 17, 19, 20, 22, 24, 26, 28, 30, 33, 35, 38, 41, 44, 48, 52, 56, 61, 65, 71, 76, 82, 89, 96, 104, 112, 121, 131, 141, 152},
-	7: {1, 1, 1, 1, 1, 1, 1, 1, 1, 1, 1, 1, 1, 1, 1, 1, 1, 1, 1, 1, 1, 1, 1, 2, 2, 2, 2, 2, 3, 3, 3, 4, 4, 5, 5, 6, 6, 7, 7, 8, 9, 10, 11, 12, 13, 15, 16, 18, 19, 21, 23, 25, 28, 31, 34, 37, 40, 44, 49, 53, 58, 64, 70, 77, 84, 92, 101, 111, 121, 133, 146, 160, 175, 192, 210, 230, 252, 276, 303, 331, 363},
-	8: {1, 1, 1, 1, 1, 1, 1, 1, 1, 1, 1, 1, 1, 1, 1, 1, 1, 1, 1, 1, 1, 1, 1, 1, 1, 2, 2, 2, 2, 3, 3, 3, 3, 4, 4, 5, 5, 6, 6, 7, 7, 8, 9, 10, 11, 12, 13, 14, 15, 17, 19, 20, 22, 24, 26, 29, 31, 34, 38, 41, 45, 49, 53, 58, 63, 69, 76, 82, 90, 98, 107, 117, 127, 139, 152, 165, 181, 197, 215, 234, 255},
-	9: {1, 1, 1, 1, 1, 1, 1, 1, 1, 1, 1, 1, 1, 1, 1, 1, 1, 1, 1, 1, 1, 1, 1, 1, 2, 2, 2, 2, 2, 3, 3, 3, 4, 4, 5, 5, 6, 7, 7, 8, 9, 10, 11, 12, 13, 15, 16, 18, 20, 22, 24, 27, 30, 33, 36, 40, 44, 48, 53, 59, 65, 71, 79, 87, 96, 105, 116, 128, 141, 155, 171, 188, 208, 229, 252, 277, 306, 337, 371, 408, 450},
+	3:  {1, 1, 1, 1, 1, 1, 1, 1, 1, 1, 1, 1, 1, 1, 1, 1, 1, 1, 1, 1, 1, 2, 2, 2, 2, 2, 2, 3, 3, 3, 3, 3, 4, 4, 4, 5, 5, 5, 6, 6, 7, 7, 8, 8, 9, 10, 10, 11, 12, 13, 14, 15, 16, 17, 18, 19, 21, 22, 24, 26, 27, 29, 31, 34, 36, 39, 41, 44, 47, 51, 54, 58, 62, 66, 71, 76, 81, 87, 93, 99, 106},
+	4:  {1, 1, 1, 1, 1, 1, 1, 1, 1, 1, 1, 1, 1, 1, 1, 1, 1, 1, 1, 1, 1, 1, 1, 1, 1, 2, 2, 2, 2, 2, 2, 2, 3, 3, 3, 3, 3, 4, 4, 4, 5, 5, 5, 5, 6, 6, 7, 7, 7, 8, 8, 9, 10, 10, 11, 11, 12, 13, 14, 15, 15, 16, 17, 19, 20, 21, 22, 23, 25, 26, 28, 30, 31, 33, 35, 38, 40, 42, 45, 47, 50},
+	5:  {1, 1, 1, 1, 1, 1, 1, 1, 1, 1, 1, 1, 1, 1, 1, 1, 1, 1, 1, 1, 1, 1, 2, 2, 2, 2, 2, 3, 3, 3, 3, 4, 4, 5, 5, 6, 6, 7, 7, 8, 9, 9, 10, 11, 12, 13, 14, 16, 17, 19, 20, 22, 24, 26, 28, 31, 34, 37, 40, 43, 47, 51, 56, 60, 66, 71, 78, 84, 92, 100, 108, 118, 128, 139, 151, 164, 178, 193, 210, 228, 248},
+	6:  {1, 1, 1, 1, 1, 1, 1, 1, 1, 1, 1, 1, 1, 1, 1, 1, 1, 1, 1, 1, 1, 1, 1, 1, 2, 2, 2, 2, 2, 3, 3, 3, 3, 4, 4, 4, 5, 5, 6, 6, 7, 7, 8, 8, 9, 10, 11, 12, 13, 14, 15, 16, 17, 19, 20, 22, 24, 26, 28, 30, 33, 35, 38, 41, 44, 48, 52, 56, 61, 65, 71, 76, 82, 89, 96, 104, 112, 121, 131, 141, 152},
+	7:  {1, 1, 1, 1, 1, 1, 1, 1, 1, 1, 1, 1, 1, 1, 1, 1, 1, 1, 1, 1, 1, 1, 1, 2, 2, 2, 2, 2, 3, 3, 3, 4, 4, 5, 5, 6, 6, 7, 7, 8, 9, 10, 11, 12, 13, 15, 16, 18, 19, 21, 23, 25, 28, 31, 34, 37, 40, 44, 49, 53, 58, 64, 70, 77, 84, 92, 101, 111, 121, 133, 146, 160, 175, 192, 210, 230, 252, 276, 303, 331, 363},
+	8:  {1, 1, 1, 1, 1, 1, 1, 1, 1, 1, 1, 1, 1, 1, 1, 1, 1, 1, 1, 1, 1, 1, 1, 1, 1, 2, 2, 2, 2, 3, 3, 3, 3, 4, 4, 5, 5, 6, 6, 7, 7, 8, 9, 10, 11, 12, 13, 14, 15, 17, 19, 20, 22, 24, 26, 29, 31, 34, 38, 41, 45, 49, 53, 58, 63, 69, 76, 82, 90, 98, 107, 117, 127, 139, 152, 165, 181, 197, 215, 234, 255},
+	10: {1, 1, 1, 1, 1, 1, 1, 1, 1, 1, 1, 1, 1, 1, 1, 1, 1, 1, 1, 1, 1, 1, 1, 1, 1, 2, 2, 2, 2, 2, 3, 3, 3, 4, 4, 5, 5, 6, 6, 7, 8, 9, 9, 10, 12, 13, 14, 15, 17, 19, 21, 23, 25, 27, 30, 33, 36, 40, 44, 48, 53, 58, 64, 70, 77, 84, 93, 102, 112, 123, 135, 148, 162, 178, 196, 215, 236, 259, 284, 312, 343, 376, 413, 453, 498, 546, 599, 658, 722, 793, 870, 955, 1048, 1151, 1263, 1386, 1522, 1670, 1833, 2012, 2208, 2424, 2661, 2920, 3205, 3518, 3861, 4238, 4652, 5105, 5604, 6150, 6751, 7409, 8132, 8926, 9797, 10752, 11802, 12953, 14217},
+	11: {1, 1, 1, 1, 1, 1, 1, 1, 1, 1, 1, 1, 1, 1, 1, 1, 1, 1, 1, 1, 1, 1, 1, 1, 1, 2, 2, 2, 2, 3, 3, 3, 4, 4, 5, 5, 6, 6, 7, 8, 9, 10, 11, 12, 13, 15, 16, 18, 20, 22, 25, 27, 30, 34, 37, 41, 46, 51, 56, 62, 69, 76, 84, 93, 103, 114, 126, 139, 154, 170, 188, 208, 230, 254, 281, 311, 344, 380, 421, 465, 514, 569, 629, 696, 769, 850, 940, 1040, 1150, 1271, 1406, 1554, 1718, 1900, 2101, 2323, 2568, 2840, 3140, 3472, 3839, 4244, 4693, 5189, 5737, 6343, 7014, 7755, 8574, 9481, 10482, 11590, 12815, 14169, 15666, 17321, 19152, 21176, 23413, 25887, 28623},
+	12: {1, 1, 1, 1, 1, 1, 1, 1, 1, 1, 1, 1, 1, 1, 1, 1, 1, 1, 1, 1, 1, 1, 1, 1, 1, 1, 2, 2, 2, 2, 3, 3, 3, 4, 4, 5, 5, 6, 6, 7, 8, 9, 10, 11, 12, 13, 14, 16, 18, 19, 22, 24, 26, 29, 32, 35, 39, 43, 48, 53, 58, 64, 71, 78, 86, 95, 105, 116, 127, 141, 155, 171, 189, 208, 229, 253, 279, 308, 339, 374, 413, 455, 502, 553, 610, 673, 742, 818, 902, 995, 1097, 1210, 1334, 1471, 1622, 1789, 1972, 2175, 2398, 2644, 2916, 3215, 3545, 3909, 4310, 4752, 5240, 5778, 6371, 7025, 7746, 8541, 9417, 10384, 11450, 12625, 13921, 15349, 16925, 18662, 20577},
+	13: {1, 1, 1, 1, 1, 1, 1, 1, 1, 1, 1, 1, 1, 1, 1, 1, 1, 1, 1, 1, 1, 1, 1, 1, 1, 1, 2, 2, 2, 2, 3, 3, 3, 4, 4, 5, 5, 6, 7, 8, 8, 9, 11, 12, 13, 15, 16, 18, 20, 22, 25, 28, 31, 34, 38, 42, 46, 52, 57, 64, 71, 78, 87, 96, 107, 119, 132, 146, 162, 180, 200, 221, 246, 272, 302, 335, 372, 412, 457, 507, 563, 624, 692, 768, 852, 945, 1048, 1162, 1289, 1429, 1585, 1758, 1950, 2162, 2398, 2660, 2950, 3272, 3629, 4024, 4463, 4950, 5490, 6088, 6752, 7488, 8305, 9211, 10215, 11329, 12564, 13935, 15454, 17139, 19008, 21081, 23380, 25929, 28757, 31892, 35370},
+	14: {1, 1, 1, 1, 1, 1, 1, 1, 1, 1, 1, 1, 1, 1, 1, 1, 1, 1, 1, 1, 1, 1, 1, 1, 1, 1, 1, 2, 2, 2, 2, 3, 3, 4, 4, 4, 5, 6, 6, 7, 8, 9, 10, 11, 12, 13, 15, 16, 18, 20, 22, 24, 27, 30, 33, 37, 41, 45, 50, 55, 61, 68, 75, 83, 92, 102, 113, 125, 139, 153, 170, 188, 208, 230, 255, 282, 312, 345, 382, 423, 468, 518, 573, 634, 702, 777, 859, 951, 1052, 1164, 1288, 1426, 1578, 1746, 1932, 2137, 2365, 2617, 2896, 3204, 3545, 3923, 4341, 4803, 5315, 5881, 6507, 7200, 7967, 8815, 9754, 10793, 11942, 13214, 14621, 16178, 17901, 19807, 21917, 24251, 26833},
+	15: {1, 1, 1, 1, 1, 1, 1, 1, 1, 1, 1, 1, 1, 1, 1, 1, 1, 1, 1, 1, 1, 1, 1, 1, 1, 1, 1, 2, 2, 2, 3, 3, 3, 4, 4, 5, 5, 6, 7, 7, 8, 9, 10, 11, 13, 14, 16, 18, 20, 22, 24, 27, 30, 34, 38, 42, 47, 52, 58, 64, 72, 80, 89, 98, 110, 122, 136, 151, 168, 186, 207, 231, 256, 285, 317, 352, 392, 436, 485, 539, 599, 666, 741, 823, 915, 1018, 1132, 1258, 1399, 1555, 1729, 1922, 2137, 2376, 2642, 2937, 3265, 3630, 4036, 4487, 4989, 5546, 6166, 6856, 7622, 8474, 9421, 10474, 11644, 12946, 14393, 16001, 17790, 19778, 21988, 24446, 27178, 30215, 33592, 37347, 41521},
+	16: {1, 1, 1, 1, 1, 1, 1, 1, 1, 1, 1, 1, 1, 1, 1, 1, 1, 1, 1, 1, 1, 1, 1, 1, 1, 1, 1, 2, 2, 2, 2, 3, 3, 3, 4, 4, 5, 5, 6, 7, 7, 8, 9, 10, 12, 13, 14, 16, 18, 20, 22, 25, 27, 30, 34, 38, 42, 46, 51, 57, 63, 71, 78, 87, 97, 107, 119, 132, 147, 163, 181, 200, 222, 247, 274, 304, 337, 374, 415, 461, 511, 568, 630, 699, 776, 861, 955, 1060, 1176, 1305, 1448, 1606, 1782, 1978, 2194, 2435, 2702, 2998, 3326, 3691, 4095, 4544, 5042, 5595, 6208, 6888, 7643, 8480, 9410, 10441, 11585, 12854, 14263, 15825, 17559, 19483, 21618, 23987, 26615, 29532, 32767},
+	32: {1, 1, 1, 1, 1, 1, 1, 1, 1, 1, 1, 1, 1, 1, 1, 1, 1, 1, 1, 1, 1, 1, 1, 1, 1, 1, 1, 1, 1, 1, 1, 2, 2, 2, 3, 3, 3, 4, 5, 5, 6, 7, 7, 8, 10, 11, 12, 14, 15, 17, 20, 22, 25, 28, 31, 35, 40, 45, 50, 57, 63, 71, 80, 90, 101, 114, 127, 143, 161, 181, 203, 228, 255, 287, 322, 362, 406, 456, 511, 574, 645, 724, 812, 912, 1023, 1149, 1290, 1448, 1625, 1824, 2047, 2298, 2580, 2896, 3250, 3649, 4095, 4597, 5160, 5792, 6501, 7298, 8191, 9195, 10321, 11585, 13003, 14596, 16383, 18390, 20642, 23170, 26007, 29192, 32767, 36780, 41285, 46340, 52015, 58385, 65535, 73561, 82570, 92681, 104031, 116771, 131071, 147123, 165140, 185363, 208063, 233543, 262143, 294246, 330280, 370727, 416127, 467087, 524287, 588493, 660561, 741455, 832255, 934175, 1048575, 1176986, 1321122, 1482910, 1664510, 1868350, 2097151, 2353973, 2642245, 2965820, 3329021, 3736700, 4194303, 4707947, 5284491, 5931641, 6658042},
+	9:  {1, 1, 1, 1, 1, 1, 1, 1, 1, 1, 1, 1, 1, 1, 1, 1, 1, 1, 1, 1, 1, 1, 1, 1, 2, 2, 2, 2, 2, 3, 3, 3, 4, 4, 5, 5, 6, 7, 7, 8, 9, 10, 11, 12, 13, 15, 16, 18, 20, 22, 24, 27, 30, 33, 36, 40, 44, 48, 53, 59, 65, 71, 79, 87, 96, 105, 116, 128, 141, 155, 171, 188, 208, 229, 252, 277, 306, 337, 371, 408, 450},
 }
 
 func vWork(t *Tree[int, int], n int) {
@@ -595,11 +603,16 @@ var _ = vl.Less
 
 func vJSON(c *Tree[int, int]) containers.VJSON {
 	return containers.VJSON{C: c, ToJSON: c.ToJSON, FromJSON: c.FromJSON,
-		Marshal: func() ([]byte, error) { return json.Marshal(c) },
+		Marshal:   func() ([]byte, error) { return json.Marshal(c) },
 		Unmarshal: func(data []byte) error { return json.Unmarshal(data, c) },
-		Inv:     func() { VInv(c) },
-		Step:    func() { k, x := v.Int("sk"), v.Int("sx"); c.Put(k, x); y, ok := c.Get(k); v.Assert(v.And(ok, y == x), "C12:put-after-load") },
-		Fresh:   func() containers.VJSON { return vJSON(NewWith[int, int](c.m, vl.Cmp)) },
+		Inv:       func() { VInv(c) },
+		Step: func() {
+			k, x := v.Int("sk"), v.Int("sx")
+			c.Put(k, x)
+			y, ok := c.Get(k)
+			v.Assert(v.And(ok, y == x), "C12:put-after-load")
+		},
+		Fresh:  func() containers.VJSON { return vJSON(NewWith[int, int](c.m, vl.Cmp)) },
 		Object: true, Keys: c.Keys, Get: c.Get, Ref: func(ks, xs []int) ([]int, []int) { return vl.SortPairs(vl.LastPerKey(ks, xs)) },
 	}
 }
